@@ -1,12 +1,21 @@
 #!/bin/sh
-# tools_try_seed.sh <patch.diff> <property id> [budget seconds]
-# Applies a seeded change to /repo, runs the property's check, reverts. Never commits.
+# tools/try_seed.sh <patch.diff> <property id> [budget seconds]
+# Applies a seeded change to /repo, runs the property's check, reverts /repo.
+# Evidence and replay files written by the run describe the CHANGED tree, so
+# they are discarded afterwards (committed ones restored, new ones kept only
+# under build/seed-replays/ for inspection). Never commits.
 set -u
 P="$1"; ID="$2"; B="${3:-60}"
 cd /repo || exit 2
 if [ -n "$(git status --porcelain)" ]; then echo "/repo is dirty" >&2; exit 2; fi
-git apply "$P" || { echo "patch does not apply" >&2; exit 2; }
+cd /verif || exit 2
+DIRTY="$(git status --porcelain evidence replays)"
+cd /repo && git apply "$P" || { echo "patch does not apply" >&2; exit 2; }
 cd /verif && VERIF_BUDGET_S="$B" ./check "$ID" 2>&1 | grep -v "^  replay [0-9]" | cut -c1-600 | tail -12
-rc=$?
 git -C /repo checkout -- . && git -C /repo clean -fdq -- . 2>/dev/null
+if [ -z "$DIRTY" ]; then
+  mkdir -p build/seed-replays
+  for f in $(git status --porcelain replays | grep '^??' | awk '{print $2}'); do mv "$f" build/seed-replays/ 2>/dev/null; done
+  git checkout -- evidence replays
+fi
 exit 0
